@@ -67,7 +67,7 @@ def tree_stream(tier):
           7: ([], ["di1"] * many),                                       # emits 300 data elements
           8: (["R", "O"], ["R", "di8"]),
           9: ([], ["h" + _hex(b"CONFIGURATION"), "h" + _hex(b"V"), "di1"]),
-          10: ([], ["di10"]), 11: ([], []), 12: ([], ["di12"])}
+          10: ([], ["di10"]), 11: ([], ["Fp-113"]), 12: ([], ["di12"])}
     msgs = []
     for n in lens(tier):
         if n > 5000:          # the 16-bit limits: character data and suffix only (the Coq side reads the bytes as a list literal)
